@@ -18,7 +18,7 @@ inline(M, "_strcmp", "_sym_to_num", "_is_base_n", "is_float", "_normalize_float"
 @invariant("_cached_str_val")
 def inv_cached_str_val(obj, v):
     """a cached value is the epoch's value, and the two side results were left as the epoch defines them"""
-    return v is None or (v == SV(obj)
+    return v is None or not is_instance(obj, "Symbol") or (v == SV(obj)
                          and (obj.orig_type == UNKNOWN or obj._write_to_conf == W2C(obj))
                          and (obj.orig_type == UNKNOWN or obj.orig_type == BOOL
                               or obj._has_active_indirect_set == FORCED(obj)))
@@ -26,7 +26,7 @@ def inv_cached_str_val(obj, v):
 
 @invariant("_cached_bool_val")
 def inv_cached_bool_val(obj, v):
-    return v is None or (v == BV(obj) and (v == 0 or v == 2)
+    return v is None or not is_instance(obj, "Symbol") or (v == BV(obj) and (v == 0 or v == 2)
                          and (obj.orig_type != BOOL or obj._write_to_conf == W2C(obj)))
 
 
@@ -44,13 +44,13 @@ def inv_cached_selection(obj, v):
 @invariant("_has_active_indirect_set")
 def inv_has_active_indirect_set(obj, v):
     """`set` only targets non-bool options (language.rst): a bool or untyped option is never forced"""
-    return (obj.orig_type != BOOL and obj.orig_type != UNKNOWN) or v == False  # noqa: E712
+    return not is_instance(obj, "Symbol") or (obj.orig_type != BOOL and obj.orig_type != UNKNOWN) or v == False  # noqa: E712
 
 
 @invariant("_write_to_conf")
 def inv_write_to_conf(obj, v):
     """an option without a type has no value of its own and is never written"""
-    return obj.orig_type != UNKNOWN or v == False  # noqa: E712
+    return not is_instance(obj, "Symbol") or obj.orig_type != UNKNOWN or v == False  # noqa: E712
 
 
 # ------------------------------------------------------------------------------------------------ shapes
@@ -217,6 +217,8 @@ def inv_user_value(obj, uv):
         return True
     if is_instance(obj, "Choice"):
         return is_int(uv) and (uv == 0 or uv == 2)
+    if not is_instance(obj, "Symbol"):
+        return True
     if obj.orig_type == BOOL:
         return is_int(uv) and (uv == 0 or uv == 2)
     if obj.orig_type == STRING:
@@ -226,7 +228,8 @@ def inv_user_value(obj, uv):
     if obj.orig_type == HEX:
         return is_str(uv) and parses_int(uv, 16) and int_val(uv, 16) >= 0
     if obj.orig_type == FLOAT:
-        return is_str(uv) and parses_float(uv)
+        # stored in canonical float notation ("2" is kept as "2.0"): what a save writes is what a load reads back
+        return is_str(uv) and parses_float(uv) and uv == str_of_float(float_val(uv))
     return False
 
 
@@ -481,12 +484,12 @@ def lit_ok(t, text):
 
 @invariant("rev_values")
 def inv_rev_values(obj, lst):
-    return forall_int(0, len(lst), lambda j: lit_ok(obj.orig_type, lst[j][0].name))
+    return not is_instance(obj, "Symbol") or forall_int(0, len(lst), lambda j: lit_ok(obj.orig_type, lst[j][0].name))
 
 
 @invariant("weak_rev_values")
 def inv_weak_rev_values(obj, lst):
-    return forall_int(0, len(lst), lambda j: lit_ok(obj.orig_type, lst[j][0].name))
+    return not is_instance(obj, "Symbol") or forall_int(0, len(lst), lambda j: lit_ok(obj.orig_type, lst[j][0].name))
 
 
 def operand_ok(t, d):
@@ -504,7 +507,7 @@ def operand_ok(t, d):
 
 @invariant("defaults")
 def inv_defaults(obj, lst):
-    return (is_instance(obj, "Choice") or obj.orig_type == BOOL or obj.orig_type == UNKNOWN
+    return (not is_instance(obj, "Symbol") or obj.orig_type == BOOL or obj.orig_type == UNKNOWN
             or forall_int(0, len(lst), lambda j: operand_ok(obj.orig_type, lst[j][0])))
 
 
